@@ -189,6 +189,9 @@ pub struct Target {
     inbuf: BytesMut,
     pub received: Vec<(u64, String, String, String)>, // (step, node, lane, body)
     pub closed: bool,
+    /// The byte stream stopped being a sequence of well formed frames (a header announcing an
+    /// absurd length; the repository's decoder would try to reserve that much memory).
+    pub malformed: Option<String>,
 }
 
 pub struct Observation {
@@ -797,7 +800,7 @@ impl World for AsWorld {
                             let (tx, rx) = byte_channel(NonZeroUsize::new(cap).unwrap());
                             let _ = c.promise.send(Ok(tx));
                             self.log(format!("commander channel opened for {}", key));
-                            self.targets.push(Target { key, rx, rx_flag: WakeFlag::new(true), inbuf: BytesMut::new(), received: vec![], closed: false });
+                            self.targets.push(Target { key, rx, rx_flag: WakeFlag::new(true), inbuf: BytesMut::new(), received: vec![], closed: false, malformed: None });
                         }
                         LinkRequest::Downlink(_) => {
                             self.log("downlink request ignored".into());
@@ -846,6 +849,20 @@ impl World for AsWorld {
                         }
                     }
                     loop {
+                        if r.decode_error.is_some() {
+                            break;
+                        }
+                        if r.inbuf.len() >= 32 {
+                            // a header announcing an absurd length would make the decoder reserve that much
+                            let h = &r.inbuf[16..32];
+                            let node_len = u32::from_be_bytes(h[0..4].try_into().unwrap()) as u64;
+                            let lane_len = u32::from_be_bytes(h[4..8].try_into().unwrap()) as u64;
+                            let body_len = u64::from_be_bytes(h[8..16].try_into().unwrap()) & !(0b111u64 << 61);
+                            if node_len > (1 << 20) || lane_len > (1 << 20) || body_len > (1 << 20) {
+                                r.decode_error = Some(format!("frame header announces node {} lane {} body {} bytes", node_len, lane_len, body_len));
+                                break;
+                            }
+                        }
                         match r.decoder.decode(&mut r.inbuf) {
                             Ok(Some(m)) => {
                                 let lane = m.path.lane.to_string();
@@ -883,6 +900,20 @@ impl World for AsWorld {
                 }
                 let mut dec = RawRequestMessageDecoder;
                 loop {
+                    if t.malformed.is_some() {
+                        break;
+                    }
+                    if t.inbuf.len() >= 32 {
+                        let h = &t.inbuf[16..32];
+                        let node_len = u32::from_be_bytes(h[0..4].try_into().unwrap()) as u64;
+                        let lane_len = u32::from_be_bytes(h[4..8].try_into().unwrap()) as u64;
+                        let body_len = u64::from_be_bytes(h[8..16].try_into().unwrap()) & !(0b111u64 << 61);
+                        if node_len > (1 << 20) || lane_len > (1 << 20) || body_len > (1 << 20) {
+                            t.malformed = Some(format!("frame header announces node {} lane {} body {} bytes after {} well formed frames", node_len, lane_len, body_len, t.received.len()));
+                            t.closed = true;
+                            break;
+                        }
+                    }
                     match dec.decode(&mut t.inbuf) {
                         Ok(Some(m)) => {
                             let body = match m.envelope {
